@@ -16,4 +16,7 @@ func C06(r *core.Run) {
 	})
 	bce := rules.RunBCE(r, sc.Packages())
 	rules.PanicSites(r, sc, bce, "panic_sites")
+	tc := rules.DefaultTermConfig()
+	tc.MinLoops, tc.MinSites = termProps["C06"][0], termProps["C06"][1]
+	rules.Termination(r, sc, tc)
 }
